@@ -27,14 +27,16 @@ def base_vad():
               "conns": [[None, [["net", "a"]]], [None, [["bit", "w", 0]]], [None, [["net", "y"]]]]},
              {"name": "\\inst/x", "module": "leaf", "attrs": {"dont_touch": '"true"'},
               "conns": [["i", [["net", "\\esc.in"]]], ["o", [["net", "\\q[3]"]]], ["d", [["bit", "w", 1], ["net", "\\q[3]"]]]]},
-             {"name": "m0", "module": "mid", "conns": [["p", [["range", "w", 1, 0]]], ["r", [["range", "r", 5, 4]]], ["al", [["bit", "b", 0], ["net", "a"]]]]},
+             {"name": "m0", "module": "mid", "conns": [["p", [["range", "w", 1, 0]]], ["r", [["range", "r", 5, 4]]], ["al", [["bit", "b", 0], ["net", "a"]]],
+                                                      ["p2", [["bit", "r", 3], ["bit", "b", 2]]]]},
              {"name": "p0", "module": "prim", "conns": [["x", [["c", 0]]], ["z", [["bit", "b", 2], ["c", 1]]], ["q", []]]},
              {"name": "p1", "module": "prim", "conns": [["x", [["bit", "r", 3]]], ["z", [["range", "b", 1, 0]]]]}],
          "assigns": [[[["bit", "y", 0]], [["bit", "b", 1]]], [[["range", "r", 5, 4]], [["range", "b", 2, 1]]]]},
         {"name": "leaf", "celldefine": True, "ports": [["i", "in", None, None], ["o", "out", None, None], ["d", "out", 1, 0]]},
-        {"name": "mid", "ports": [["p", "in", 1, 0], ["r", "out", 1, 0], ["al", "in", None, None, ["hi", "lo"]]],
+        {"name": "mid", "ports": [["p", "in", 1, 0], ["p2", "in", 1, 0], ["r", "out", 1, 0], ["al", "in", None, None, ["hi", "lo"]]],
          "insts": [{"name": "l", "module": "leaf", "conns": [["i", [["bit", "p", 0]]], ["d", [["net", "r"]]]]},
-                   {"name": "l2", "module": "leaf", "conns": [["i", [["net", "hi"]]], ["o", [["net", "lo"]]]]}]},
+                   {"name": "l2", "module": "leaf", "conns": [["i", [["net", "hi"]]], ["o", [["net", "lo"]]]]},
+                   {"name": "l3", "module": "leaf", "conns": [["i", [["bit", "p2", 1]]], ["d", [["net", "p2"]]]]}]},
         {"name": "prim", "declared": False, "ports": []},
     ]}
 
